@@ -24,7 +24,6 @@ _BUILD = dict(kind="test", pkg="./cmd/snap-update-ns", build_env={"CGO_ENABLED":
 
 SPEC = dict(
     prop="C28",
-    disabled="under construction",
     coq_targets=["props/C28.vo"],
     drivers=[
         dict(name="codec", run="TestVerifC28Codec", n=dict(quick=500, thorough=30000),
@@ -67,7 +66,7 @@ SPEC = dict(
     ],
     assumptions=[
         "PARTIAL: result profile proved in membership form (every desired entry mounted or kept; only desired entries mounted; only desired entries and still-needed helpers kept); that the change list applies step by step and that nothing appears twice is monitored on every observed change list, not proved",
-        "PARTIAL: mount order: proved are the trailing-slash key lemma and independent-before-mimic; sortedness of the two insertion sorts for byOriginAndMountPoint and the order between mimic groups are monitored, not proved",
+        "mount order (C28_mount_order) is proved under per-pair hypotheses: different sort keys, existing targets closed under containment, mimic roots equal or string-ordered; that the last one follows from an ancestor-closed oracle (filepath.Dir algebra) is not proved; the monitor checks the conclusion without it",
         "hypotheses of the planning theorems (checked on every tied case, cases violating them are not monitored): pairwise different cleaned desired mount points; pairwise different (dir, type) in the current profile; no desired entry on the (dir, type) of a different helper entry of the current profile; existing mount targets closed under containment among desired entries of the same origin",
         "KNOWN FINDING unmount-order-after-keep: over histories the unmount order sentence fails on the real code (kept entries are recorded reversed); within one step C28_unmount_order holds for every profile",
         "KNOWN FINDING profile-name-leading-space-rune: profile round trip needs the first byte of the line not to be a white-space rune that escape() leaves alone",
